@@ -191,7 +191,7 @@ fn tracker_histories<T: TElt>(params: &Value, ws: bool) -> Outcome {
             for j in 0..p {
                 let t = tol_of(&bs[c], j);
                 worst_tol = worst_tol.max(t);
-                if !(t < 0.02) || !(bs[c].var[j] > 1e-9) {
+                if !(t < 0.02) || !(bs[c].var[j] > 1e-30) {
                     o.count("not_judged_ill_conditioned", 1);
                     continue;
                 }
@@ -216,7 +216,7 @@ fn tracker_histories<T: TElt>(params: &Value, ws: bool) -> Outcome {
             let err = 8.0 * k as f64 * (f32::EPSILON as f64) * bs.iter().map(|b| b.mean[j].abs()).fold(0.0, f64::max);
             err < 0.02 * spread.max(w / (k as f64).sqrt()).max(1e-300) && err < 0.01 * w
         });
-        if nc >= 2 && worst_tol < 0.005 && mean_ok && bs.iter().all(|b| b.var.iter().all(|v| *v > 1e-9)) {
+        if nc >= 2 && worst_tol < 0.005 && mean_ok && bs.iter().all(|b| b.var.iter().all(|v| *v > 1e-30)) {
             let want = batch_rhat(&bs, p);
             let refs: Vec<&ChainStats> = stats.iter().collect();
             let got = collect_rhat(&refs);
@@ -296,7 +296,7 @@ impl Scenario for TrackerHistories {
             6..=8 => g.usize(61, 600),
             _ => g.usize(601, 5000),
         };
-        let sigma = g.log_uniform(1e-2, 1e2);
+        let sigma = g.log_uniform(1e-6, 1e3); // any scale: f32 conditioning depends on mean/sd, not on the scale
         json!({"elt": *g.pick(&["f64", "f32", "f32", "i32", "i32", "i16", "u8"]), "chains": g.usize(2, 16), "params": g.usize(1, 8), "n": n,
                "mu": fbits(sigma * g.f64_in(-10.0, 10.0)), "sigma": fbits(sigma), "shift": fbits(if g.bool(1, 2) { 0.0 } else { g.f64_in(0.1, 3.0) }),
                "hold": if g.bool(1, 3) { g.usize(2, 5) } else { 1 }, "gseed": g.u64()})
@@ -467,7 +467,7 @@ impl Scenario for ProgressSnapshots {
                 for j in 0..p {
                     // condition-aware tolerance (see tracker_histories)
                     let tol = 8.0 * n as f64 * f32::EPSILON as f64 * (1.0 + b.mean[j].powi(2) / b.var[j].max(1e-300));
-                    if !(tol < 0.02) || !(b.var[j] > 1e-9) {
+                    if !(tol < 0.02) || !(b.var[j] > 1e-30) {
                         o.count("not_judged_ill_conditioned", 1);
                         continue;
                     }
@@ -501,7 +501,7 @@ impl Scenario for ProgressSnapshots {
                 batch(&seq, p)
             })
             .collect();
-        let well = bs.iter().all(|b| (0..p).all(|j| b.var[j] > 1e-9 && 8.0 * total as f64 * f32::EPSILON as f64 * (1.0 + b.mean[j].powi(2) / b.var[j]) < 0.002));
+        let well = bs.iter().all(|b| (0..p).all(|j| b.var[j] > 1e-30 && 8.0 * total as f64 * f32::EPSILON as f64 * (1.0 + b.mean[j].powi(2) / b.var[j]) < 0.002));
         if well {
             let want = batch_rhat(&bs, p);
             let got = collect_rhat(&finals);
